@@ -44,12 +44,18 @@ theorem wf_remove (img : Img) (hw : WF img) (name md5 : Bytes) (h32 : Nat) :
   obtain ⟨img', r, h1, h2, _⟩ := remove_wf hw name h32 md5
   exact ⟨img', r, h1, h2⟩
 
-/-- `remove_by_idx` for every index below `maxslots` (negative: EINVAL): the three cases incl.
+/-- `remove_by_idx` for EVERY index: negative or beyond the last slot answers EINVAL and touches
+    nothing (the bound check of the repaired code); inside the table the three removal cases incl.
     promotion of a collision key, and ENOENT for free / extension slots -/
-theorem wf_remove_by_idx (img : Img) (hw : WF img) (idx : Int) (hidx : idx < img.n) :
+theorem wf_remove_by_idx (img : Img) (hw : WF img) (idx : Int) :
     ∃ img' r, removeByIdx img idx = .ok (img', r) ∧ WF img' := by
-  obtain ⟨img', r, h1, h2, _⟩ := removeByIdx_wf hw idx hidx
+  obtain ⟨img', r, h1, h2, _⟩ := removeByIdx_wf hw idx
   exact ⟨img', r, h1, h2⟩
+
+/-- an index outside the table is rejected and the image is untouched -/
+theorem remove_by_idx_out_of_range (img : Img) (idx : Int) (h : idx < 0 ∨ idx ≥ img.maxslots) :
+    removeByIdx img idx = .ok (img, .err .EINVAL) := by
+  unfold removeByIdx; rw [if_pos h]; rfl
 
 /-- `clear` -/
 theorem wf_clear (img : Img) (hw : WF img) : ∃ img', clear img = .ok img' ∧ WF img' := by
@@ -82,13 +88,13 @@ theorem attach_same (img : Img) (ops1 ops2 : List Op) :
     | ok img' => exact ih img'
 
 /-- non-vacuity: valid histories exist for every capacity, e.g. three keys with the same home (one
-    two-slot value) and a removal by index -/
+    two-slot value), a removal by index and indexes outside the table -/
 example : ∃ img, run (init 4) [Op.put [1] (List.replicate 40 7) 1 (List.replicate 16 0),
       Op.put [2] [9] 1 (List.replicate 16 0), Op.put [3] [8] 5 (List.replicate 16 0),
-      Op.removeByIdx 1] = .ok img ∧ WF img :=
+      Op.removeByIdx 1, Op.removeByIdx 4, Op.removeByIdx 2147483647, Op.removeByIdx (-1)] = .ok img ∧ WF img :=
   wf_reachable 4 (by decide) _ (by
     intro op hop
     simp only [List.mem_cons, List.mem_nil_iff, or_false] at hop
-    rcases hop with rfl | rfl | rfl | rfl <;> simp [Op.valid])
+    rcases hop with rfl | rfl | rfl | rfl | rfl | rfl | rfl <;> simp [Op.valid])
 
 end Qlibc.Props.C07
